@@ -2,7 +2,8 @@
    driver) -> one output line.  All canonical printing is done here, in Coq, so that the OCaml
    side is a trivial read/print loop. *)
 From VF Require Import Base.Prelude Model.Reader Model.InfoModelDefs.
-From VF Require Gen.InfoModel.
+From VF Require Import Base.IPText Model.Layout Model.JsonPieces Model.Nf5.
+From VF Require Gen.InfoModel Gen.Layouts Gen.JsonPieces.
 
 Inductive tok := TBytes (b : bytes) | TInt (z : Z) | TSym (s : bytes).
 
@@ -64,7 +65,31 @@ Definition cmd_infomodel (args : list tok) : bytes :=
   | _ => s2l "BADARGS"
   end.
 
+(* ---------- NetFlow v5 (C08) ---------- *)
+Definition show_named (fs : list (string * Z)) : bytes :=
+  intercalate (s2l ",") (map (fun x => s2l (fst x) ++ s2l "=" ++ show_Z (snd x)) fs).
+
+Definition g_nf5_decode := nf5_decode Gen.Layouts.nf5_header_layout Gen.Layouts.nf5_flow_layout.
+Definition g_nf5_marshal := nf5_marshal Gen.JsonPieces.nf5_agent_pieces Gen.JsonPieces.nf5_header_pieces Gen.JsonPieces.nf5_flow_pieces.
+
+(* nf5 <addr> <payload>  ->  ERR | PANIC | HANG | OK clean=<b> H:<fields> F:<n> <flow>|<flow> J:<json or -> *)
+Definition cmd_nf5 (args : list tok) : bytes :=
+  match args with
+  | TBytes addr :: TBytes p :: _ =>
+    match g_nf5_decode addr p with
+    | Err _ => s2l "ERR"
+    | Panic => s2l "PANIC"
+    | Hang => s2l "HANG"
+    | Ok (m, clean) =>
+        s2l "OK clean=" ++ (if clean then s2l "1" else s2l "0") ++ s2l " H:" ++ show_named (n5_header m)
+        ++ s2l " F:" ++ show_Z (len (n5_flows m)) ++ sp ++ intercalate (s2l "|") (map show_named (n5_flows m))
+        ++ s2l " J:" ++ (match n5_flows m with [] => s2l "-" | _ => g_nf5_marshal m end)
+    end
+  | _ => s2l "BADARGS"
+  end.
+
 Definition dispatch (cmd : bytes) (args : list tok) : bytes :=
   if list_eqb cmd (s2l "reader") then cmd_reader args
   else if list_eqb cmd (s2l "infomodel") then cmd_infomodel args
+  else if list_eqb cmd (s2l "nf5") then cmd_nf5 args
   else s2l "UNKNOWN-COMMAND".
